@@ -486,6 +486,39 @@ def rule_t4(ck, prog, S, model, only=None):
                     okall = False
             if not okall:
                 break
+    # single-character token recognisers: by evaluation over the complete byte domain (however they are written: through the
+    # one-character skipper, by a step of their own, or by delegating to a shared helper)
+    from sa import interp as I_
+    for name, expr in spec.get("single_character_tokens", {}).items():
+        if name.startswith("_") or (only is not None and name not in only):
+            continue
+        f = prog.fn(name)
+        if f is None:
+            continue
+        listed.add(name)
+        ck.analysed(f)
+        want = CS.parse_class(expr)
+        stx = K.site(f, "single-character", 0)
+        bad = None
+        try:
+            for b in range(256):
+                seconds = range(256) if b in want else (120,)
+                for b2 in seconds:
+                    r, tok, used = I_.lex_on(prog, name, bytes([b, b2]))
+                    exp = 1 if b in want else 0
+                    if (r, used) != (exp, exp) and bad is None:
+                        bad = (b, b2, r, used, exp)
+                r, tok, used = I_.lex_on(prog, name, bytes([b]))
+                if (r, used) != ((1, 1) if b in want else (0, 0)) and bad is None:
+                    bad = (b, None, r, used, 1 if b in want else 0)
+        except I_.Stuck as e:
+            ck.undecided("C13-T4", stx, K.loc(f), "cannot evaluate %s: %s" % (name, e))
+            continue
+        if bad:
+            ck.violated("C13-T4", stx, K.loc(f), "%s on input %s consumes %s byte(s) and returns %s; the token is exactly the one character {%s}: "
+                        "%d byte(s)" % (name, [bad[0]] + ([bad[1]] if bad[1] is not None else []), bad[3], bad[2], show(want), bad[4]))
+        else:
+            ck.holds("C13-T4", stx, K.loc(f), "consumes exactly one {%s} and nothing else (all first bytes, all second bytes behind it)" % show(want))
     if only is not None:
         return
     # every other lexer function that advances under a character test must use one of the known classes
